@@ -461,7 +461,7 @@ Definition holds_C02_redeem (lc : lcfg) (ec : ecfg) (denoms : list Z) (e : estat
 
 (* the law of the share calculation, on the observation after a SUCCESSFUL SetUpShareCalculation: the share of
    every record is the quotient of its dollar value by the total of its side, within one unit (10^-18) *)
-Definition share_ok (v total share : Z) : bool := (- total <=? share * total - v * P18) && (share * total - v * P18 <=? total).
+Definition share_ok (v total share : Z) : bool := Z.abs (share * total - v * P18) <=? Z.abs total.
 Definition holds_C02_shares (lc : lcfg) (ec : ecfg) (e' : estate) (app : Z) : bool :=
   match cool e' app with
   | None => match app_recs (recs e') app with [] => true | _ => false end
